@@ -30,10 +30,11 @@ const (
 	mStale              // first half of ops; Root; second half; Commit
 	mDetour             // before every op the opposite op on the same key (insert-then-delete, delete-then-insert, overwrite); Commit
 	mResetFirst         // unrelated writes; Reset; ops; Commit
+	mIdleRoot           // Root() while nothing is pending (a speculative read of the committed root); Reset; ops; Commit
 	nModes
 )
 
-var modeName = []string{"plain", "root-then-commit", "speculative-root-then-reset", "write-after-root", "detour-in-batch", "reset-then-write"}
+var modeName = []string{"plain", "root-then-commit", "speculative-root-then-reset", "write-after-root", "detour-in-batch", "reset-then-write", "idle-root-then-reset"}
 
 const parallelThreshold = store.NumSubtrees * 2 // smt.go: CommitParallel falls back to Commit below this many pending operations
 
@@ -349,6 +350,12 @@ func runStoreJob(j sjob) (res sres) {
 				if ok = w.apply(opp) && w.apply(o); !ok {
 					break
 				}
+			}
+		case mIdleRoot:
+			ok = w.root(false)
+			if ok {
+				w.reset()
+				ok = applyAll(b.Ops)
 			}
 		case mResetFirst:
 			ok = w.apply(junk) && applyAll(b.Ops)
